@@ -1159,3 +1159,92 @@ pub fn gen_doc(t: &mut Tape, cfg: &GenCfg) -> Rendered {
     let tree = gen_tree(t, cfg);
     render(&tree, t, cfg)
 }
+
+
+// ------------------------------------------------------------------------------------------------
+// re-spelling: give an existing plain tree a random legal layout
+// ------------------------------------------------------------------------------------------------
+
+fn relayout_value(n: &Node, t: &mut Tape) -> GNode {
+    match n {
+        Node::Array(a) => GNode::Array(a.iter().map(|e| relayout_value(e, t)).collect()),
+        Node::Aot(a) => GNode::Array(a.iter().map(|e| GNode::Table(relayout_inline(e, t))).collect()),
+        Node::Table(tb) => GNode::Table(relayout_inline(tb, t)),
+        s => GNode::Scalar(s.clone()),
+    }
+}
+
+fn relayout_inline(tb: &Tbl, t: &mut Tape) -> GTable {
+    let mut entries = vec![];
+    for (k, n) in &tb.entries {
+        let g = match n {
+            Node::Table(x) if !x.entries.is_empty() && t.chance(1, 4) => GNode::Table(relayout_dotted(x, t, false)),
+            other => relayout_value(other, t),
+        };
+        entries.push((k.clone(), g));
+    }
+    GTable { layout: Layout::Inline, entries }
+}
+
+/// dotted layout: needs at least one entry; children are values or dotted tables (plus, in a body,
+/// header children)
+fn relayout_dotted(tb: &Tbl, t: &mut Tape, body: bool) -> GTable {
+    let mut entries = vec![];
+    for (i, (k, n)) in tb.entries.iter().enumerate() {
+        let g = match n {
+            Node::Table(x) if !x.entries.is_empty() && t.chance(1, 3) => GNode::Table(relayout_dotted(x, t, body)),
+            Node::Table(x) if body && i > 0 && t.chance(1, 4) => GNode::Table(relayout_body(x, t, Layout::Header)),
+            other => relayout_value(other, t),
+        };
+        entries.push((k.clone(), g));
+    }
+    // the first entry must give the table a body line
+    if let Some((_, GNode::Table(first))) = entries.first() {
+        if first.layout == Layout::Header {
+            unreachable!()
+        }
+    }
+    GTable { layout: Layout::Dotted, entries }
+}
+
+fn all_tables(a: &[Node]) -> bool {
+    !a.is_empty() && a.iter().all(|e| matches!(e, Node::Table(_)))
+}
+
+fn relayout_body(tb: &Tbl, t: &mut Tape, layout: Layout) -> GTable {
+    let mut entries = vec![];
+    for (k, n) in &tb.entries {
+        let g = match n {
+            Node::Table(x) => match t.weighted(&[4, 3, if x.entries.is_empty() { 0 } else { 3 }, if !x.entries.is_empty() && x.entries.iter().all(|(_, c)| matches!(c, Node::Table(_))) { 2 } else { 0 }]) {
+                0 => GNode::Table(relayout_body(x, t, Layout::Header)),
+                1 => GNode::Table(relayout_inline(x, t)),
+                2 => GNode::Table(relayout_dotted(x, t, true)),
+                _ => {
+                    // implicit: only header-table children
+                    let entries = x.entries.iter().map(|(kk, c)| match c {
+                        Node::Table(y) => (kk.clone(), GNode::Table(relayout_body(y, t, Layout::Header))),
+                        _ => unreachable!(),
+                    }).collect();
+                    GNode::Table(GTable { layout: Layout::Implicit, entries })
+                }
+            },
+            Node::Aot(a) if !a.is_empty() => GNode::Aot(a.iter().map(|e| relayout_body(e, t, Layout::AotElem)).collect()),
+            Node::Array(a) if all_tables(a) && t.chance(1, 2) => GNode::Aot(
+                a.iter()
+                    .map(|e| match e {
+                        Node::Table(x) => relayout_body(x, t, Layout::AotElem),
+                        _ => unreachable!(),
+                    })
+                    .collect(),
+            ),
+            other => relayout_value(other, t),
+        };
+        entries.push((k.clone(), g));
+    }
+    GTable { layout, entries }
+}
+
+/// A random legal layout for a plain tree (same data, different document shape).
+pub fn relayout(root: &Tbl, t: &mut Tape) -> GTable {
+    relayout_body(root, t, Layout::Root)
+}
